@@ -1480,7 +1480,8 @@ class Console:
             if styles:
                 text = "".join(
                     (style.render(text) if style else text)
-                    for text, style, _ in self._record_buffer
+                    for text, style, is_control in self._record_buffer
+                    if not is_control
                 )
             else:
                 text = "".join(
